@@ -10,6 +10,8 @@ use crate::ctx::Ctx;
 use simplicity::elements::bitcoin::Weight;
 use simplicity::Cost;
 
+pub const RULE: &str = "costs and witness stacks around every boundary (budget edge, padding-table regions 253/255/65538/65540, compact-size 252/253 and 65535/65536 of item count and size, consensus maximum); non-trivial = a padding is returned or the weight is within 3 of the budget; distinct by (cost, item lengths)";
+
 const MAX: u64 = 4_000_050_000;
 
 fn cs(n: u64) -> u64 {
